@@ -83,6 +83,9 @@ MUTANTS = [
     ("residual on all pixels", "AegeanTools/fitting.py",
      "            return model - data[mask]\n",
      "            return model - data.ravel()\n", "C01-R3"),
+    ("integrated flux with one conversion factor", "AegeanTools/source_finder.py",
+     "source.int_flux = source.peak_flux * sx * sy * CC2FHWM ** 2 * np.pi",
+     "source.int_flux = source.peak_flux * sx * sy * CC2FHWM * np.pi", "C01-R7"),
 ]
 TWINS = [
     ("radians spelled out", "AegeanTools/wcs_helpers.py",
@@ -129,6 +132,11 @@ def run(ctx):
     r3(ctx, prog)
     # ---------------------------------------------------------------- R6
     r6(ctx, prog)
+    # ---------------------------------------------------------------- R7
+    # integrated flux = peak * (Gaussian area in pixels) / (beam area in
+    # pixels): the same formula rule as C03-R6
+    from .c03 import r6 as int_flux_formula
+    int_flux_formula(ctx, prog, prog.module("source_finder"), rule="C01-R7")
     # ---------------------------------------------------------------- R4
     n = rules_num.lmfit_int_uses(ctx, "C01-R4", reach)
     ctx.note("C01-R4: %d int-only uses of coerced lmfit values" % n)
